@@ -600,7 +600,7 @@ def gen_history(rng):
     ids = regs + regs + inits
     nclients = rng.choice([1, 2, 2, 3, 4])
     alias_p = rng.choice([0.0, 0.3, 0.9])
-    scenario = rng.choice(['mixed', 'mixed', 'machines', 'machines', 'rep', 'stateless'])
+    scenario = rng.choice(['mixed', 'mixed', 'machines', 'machines', 'rep', 'stateless', 'asm'])
     nops = min(50, 2 + int(rng.expovariate(1 / 12.0)))
     bad_p = rng.choice([0.0, 0.1, 0.3])
     ref_p = rng.choice([0.0, 0.2, 0.5])
@@ -642,6 +642,14 @@ def gen_history(rng):
         c = rng.randrange(nclients)
         shared = rng.random() < alias_p
         x = rng.random()
+        if scenario == 'asm':
+            pm = 0.0
+            if rng.random() < 0.75:
+                if rng.random() < 0.8:
+                    ops.append({'op': 'asm', 'line': rng.choice(lpool) if rng.random() < 0.85 else rng.choice(gen.INTEL_BAD), 'c': c})
+                else:
+                    ops.append({'op': 'asm_att', 'line': rng.choice(gen.ATT_LINES) if rng.random() < 0.85 else rng.choice(gen.ATT_BAD), 'c': c})
+                continue
         if scenario == 'stateless':
             pm = 0.1
         elif scenario in ('machines', 'rep'):
